@@ -638,6 +638,12 @@ func statusFromError(id uint32, err error) *sshFxpStatusPacket {
 		ret.StatusError.Code = sshFxNoSuchFile
 		return ret
 	}
+	if errors.Is(err, os.ErrPermission) {
+		// os.ErrPermission itself, and EACCES/EPERM inside any of os's error
+		// wrappers (*PathError, *LinkError, *SyscallError).
+		ret.StatusError.Code = sshFxPermissionDenied
+		return ret
+	}
 	if code, ok := translateSyscallError(err); ok {
 		ret.StatusError.Code = code
 		return ret
